@@ -122,4 +122,3 @@ package resp
 //@   assert before ReadTrailer: rbBody == 1 && rbChunked
 //@   assert before SetContentLength: rbBody == 1
 //@   top-ensures rbSkip ==> rbBody == 0
-
